@@ -129,14 +129,25 @@ pub fn layout_all(spec: &NodeSpec, a: Size<AvailableSpace>) -> Option<(Lays, Exp
 pub fn layout_after_hiding(spec: &NodeSpec, target: usize, vis: Display, a: Size<AvailableSpace>) -> Option<Lays> {
     let spec = spec.clone();
     std::panic::catch_unwind(move || {
-        let hidden_style = node_at(&spec, target).style.clone();
+        // every display:none node inside the target's subtree (the target included) is shown for the first pass, so that the
+        // whole subtree -- also below NESTED display:none nodes -- holds non-zero layouts before it is hidden
+        let n_sub = flatten(&spec)[target].1;
         let mut shown = spec.clone();
-        node_at_mut(&mut shown, target).style.display = vis;
+        let mut to_hide: Vec<(usize, Style)> = vec![];
+        for k in target..target + n_sub {
+            let st = node_at(&spec, k).style.clone();
+            if st.display == Display::None {
+                node_at_mut(&mut shown, k).style.display = if k == target { vis } else { [Display::Block, Display::Flex, Display::Grid][k % 3] };
+                to_hide.push((k, st));
+            }
+        }
         let mut t: TaffyTree<Ctx> = TaffyTree::new();
         let mut ids = vec![];
         let root = build(&mut t, &shown, &mut ids);
         compute(&mut t, root, a);
-        t.set_style(ids[target], hidden_style).unwrap();
+        for (k, st) in to_hide {
+            t.set_style(ids[k], st).unwrap();
+        }
         compute(&mut t, root, a);
         ids.iter().map(|n| (layout_bits(t.unrounded_layout(*n)), layout_bits(t.layout(*n).unwrap()))).collect()
     })
